@@ -479,7 +479,7 @@ def subst_int(node, n):
 
 
 @obligation(tier="quick", timeout=120, shards=[{"t": t} for t in ("Int", "Float", "ID", "Boolean", "String")],
-            samples=[{"tag": 1, "n": 5, "b": True, "s": "x"}, {"tag": 1, "n": 2 ** 31, "b": False, "s": ""}],
+            samples=[{"tag": 1, "n": 5, "b": True, "s": "x"}, {"tag": 1, "n": 2 ** 31, "b": False, "s": ""}, {"tag": 1, "n": -2 ** 31, "b": False, "s": "0"}, {"tag": 1, "n": 2 ** 31 - 1, "b": True, "s": " "}, {"tag": 1, "n": 0, "b": False, "s": "x"}, {"tag": 1, "n": -2 ** 31 - 1, "b": False, "s": "x"}],
             symbolic=["n: int (unbounded)", "b: bool", "s: str (all strings)"], selectors=["tag: None/int/bool/str", "shard: scalar"],
             bounds="one variable value per request",
             note="variable -> input coercion -> resolver -> output coercion through the real engine: accepted exactly for the value kinds the scalar allows; the echoed value is the same value; output fed back as input is accepted unchanged (idempotence)")
@@ -525,7 +525,7 @@ def c10_echo(tag: int, n: int, b: bool, s: str) -> bool:
 
 
 @obligation(tier="quick", timeout=120, shards=[{"t": t} for t in ("Int", "Float")],
-            samples=[{"n": 5}, {"n": 2 ** 31}],
+            samples=[{"n": 5}, {"n": 2 ** 31}, {"n": -2 ** 31}, {"n": 2 ** 31 - 1}, {"n": 0}, {"n": -1}, {"n": -2 ** 31 - 1}, {"n": -10 ** 9}, {"n": 10 ** 9}, {"n": -999999999}],
             symbolic=["n: int (unbounded) — value of the int literal (text abstracted as int(text)=n)"], bounds="one literal per request",
             note="a literal and a variable carrying the same value reach the resolver as the same value, or are both refused")
 def c10_literal_eq_variable(n: int) -> bool:
@@ -557,7 +557,7 @@ def c10_literal_eq_variable(n: int) -> bool:
 
 
 @obligation(tier="quick", timeout=120, shards=[{"t": t} for t in ("Int", "Float", "ID", "Boolean", "String")],
-            samples=[{"tag": 1, "n": 5, "b": True, "s": "x"}, {"tag": 2, "n": 0, "b": False, "s": ""}],
+            samples=[{"tag": 1, "n": 5, "b": True, "s": "x"}, {"tag": 2, "n": 0, "b": False, "s": ""}, {"tag": 1, "n": -2 ** 31, "b": True, "s": "x"}, {"tag": 1, "n": 2 ** 31 - 1, "b": True, "s": "x"}, {"tag": 1, "n": 2 ** 31, "b": True, "s": "x"}, {"tag": 1, "n": 0, "b": True, "s": "x"}],
             symbolic=["n: int", "b: bool", "s: str"], selectors=["tag: None/int/bool/str resolver output"], bounds="one resolver output per request",
             note="result coercion through the engine: a non-null result has the scalar's wire type and denotes the same value")
 def c10_output(tag: int, n: int, b: bool, s: str) -> bool:
